@@ -290,6 +290,13 @@ class VHash(V):
         self.alg, self.ref = alg, ref
 
 
+class VSeqObj(V):
+    """abstract sequence (unknown length) of objects of class `cls`; `z` is a z3 Seq(Int) of refs;
+    rev=True means iteration order is reversed"""
+    def __init__(self, z, cls, rev=False):
+        self.z, self.cls, self.rev = z, cls, rev
+
+
 class VRange(V):
     def __init__(self, lo, hi):
         self.lo, self.hi = lo, hi
@@ -384,6 +391,9 @@ class Exec:
         self.max_paths = max_paths
         self.label = ''
         self.allowed_raises = {}
+        self.invariants = {}
+        self.unfold = lambda ex, st, i, it: []
+        self.yield_encoder = None
         self.hooks = {}        # (class qualname, attr) -> fn(ex, st, selfobj, args) -> [(st, value)]
         self.safety_names = itertools.count()
 
@@ -579,7 +589,7 @@ class Exec:
         if q in self.repo.functions:
             fmod = q.rsplit('.', 1)[0]
             return [(st, VFunc(self.repo.functions[q], None, mod=fmod))]
-        if n.id in ('len', 'int', 'bool', 'bytes', 'bytearray', 'max', 'min', 'range', 'isinstance', 'sum', 'iter',
+        if n.id in ('reversed', 'len', 'int', 'bool', 'bytes', 'bytearray', 'max', 'min', 'range', 'isinstance', 'sum', 'iter',
                     'list', 'tuple', 'set', 'super', 'all', 'any', 'ValueError', 'TypeError', 'NotImplementedError',
                     'IndexError', 'KeyError', 'hashlib', 'math', 'binascii', 'os', 'str', 'getattr', 'setattr', 'chr', 'ord'):
             return [(st, VBuiltin(n.id))]
@@ -715,6 +725,10 @@ class Exec:
                 return z3.BoolVal(False)
             return z3.And(*[self.eq(a, b, st) for a, b in zip(l.items, r.items)]) if l.items else z3.BoolVal(True)
         if isinstance(l, VObj) and isinstance(r, VObj):
+            if z3.is_expr(l.ref) or z3.is_expr(r.ref):
+                if not (z3.is_expr(l.ref) and z3.is_expr(r.ref)):
+                    return z3.BoolVal(False)
+                return l.ref == r.ref
             return z3.BoolVal(l.ref == r.ref)
         if type(l) != type(r):
             return z3.BoolVal(False)
@@ -860,8 +874,9 @@ class Exec:
             if lk and lk[0] in ('sdprop', 'prop'):
                 getter = lk[2]['get'] if lk[0] == 'sdprop' else lk[2]
                 return self.call_func(VFunc(getter, None, cls=lk[1], self_val=o, mod=self.repo.classes[lk[1]].module), [], {}, st, ctx)
-            if (o.ref, attr) in st.heap:
-                return [(st, st.heap[(o.ref, attr)])]
+            key = ('sym:' + str(z3.simplify(o.ref)), attr) if z3.is_expr(o.ref) else (o.ref, attr)
+            if key in st.heap:
+                return [(st, st.heap[key])]
             if lk and lk[0] in ('method',):
                 return [(st, VFunc(lk[2], None, cls=lk[1], self_val=o, mod=self.repo.classes[lk[1]].module))]
             if lk and lk[0] == 'static':
@@ -947,6 +962,16 @@ class Exec:
             if c is None:
                 raise ToolLimit('symbolic index into tuple')
             return [(st, self.items(o, st)[c])]
+        if isinstance(o, VSeqObj):
+            L = z3.Length(o.z)
+            z = self.as_int(i)
+            res = []
+            for s2, ok in self.fork(st, z3.And(z >= -L, z < L)):
+                if not ok:
+                    res.append((s2, Raise('IndexError', n.lineno)))
+                else:
+                    res.append((s2, VObj(o.cls, z3.simplify(o.z[z3.If(z < 0, z + L, z)]))))
+            return res
         if isinstance(o, VDict):
             res = []
             rest = st
@@ -1116,6 +1141,13 @@ class Exec:
                 return [(st, VRange(lo, hi))]
             if name in ('ValueError', 'TypeError', 'NotImplementedError', 'IndexError', 'KeyError'):
                 return [(st, VStr(s=('exc', name)))]
+            if name == 'reversed':
+                x = A[0]
+                if isinstance(x, VSeqObj):
+                    return [(st, VSeqObj(x.z, x.cls, not x.rev))]
+                return [(st, VTuple(list(reversed(self.items(x, st)))))]
+            if name == 'len' and isinstance(A[0], VSeqObj):
+                return [(st, VInt(z3.Length(A[0].z)))]
             if name == 'list':
                 if isinstance(A[0], VObj):
                     res = []
@@ -1310,6 +1342,14 @@ class Exec:
             return [(st, Next())]
         return [(s, v if isinstance(v, Raise) else Next()) for s, v in self.ev(n.value, env, st, ctx)]
 
+    def ev_Yield(self, n, env, st, ctx):
+        out = []
+        for s, v in self.ev(n.value, env, st, ctx):
+            enc = self.yield_encoder(self, s, v)
+            s.ghost['yielded'] = z3.Concat(s.ghost['yielded'], z3.Unit(enc)) if 'yielded' in s.ghost else z3.Unit(enc)
+            out.append((s, VNone()))
+        return out
+
     def st_Pass(self, n, env, st, ctx):
         return [(st, Next())]
 
@@ -1401,6 +1441,8 @@ class Exec:
     def setattr(self, o, attr, v, st, ctx, n):
         if not isinstance(o, VObj):
             raise ToolLimit('setattr on %s' % type(o).__name__)
+        if z3.is_expr(o.ref):
+            o = VObj(o.cls, 'sym:' + str(z3.simplify(o.ref)))
         lk = self.repo.lookup(o.cls, attr)
         if lk and lk[0] == 'sdprop':
             # collect setters along MRO
@@ -1463,6 +1505,9 @@ class Exec:
     def st_For(self, n, env, st, ctx):
         out = []
         for s, it in self.ev(n.iter, env, st, ctx):
+            if isinstance(it, VSeqObj):
+                out += self.for_invariant(n, it, env, s, ctx)
+                continue
             items = self.iter_items(it, s)
             outs = [(s, Next())]
             for item in items:
@@ -1557,3 +1602,36 @@ class Exec:
             if not frontier:
                 break
         return out
+
+
+    # ---- loops over abstract sequences: inductive invariants
+    def for_invariant(self, n, it, env, st, ctx):
+        key = (ctx.get('fn'), self.loop_ordinal(ctx, n))
+        if key not in self.invariants:
+            raise ToolLimit('loop %s needs an invariant' % (key,))
+        inv = self.invariants[key]
+        L = z3.Length(it.z)
+        # (1) initialisation
+        pre = st.ghost.get('yielded', z3.Empty(z3.SeqSort(z3.IntSort())))
+        self.oblige(st, 'inv-init%s' % (key,), inv(self, st, env, z3.IntVal(0), it, pre), n.lineno)
+        # (2) arbitrary iteration: havoc what the loop writes (here: the ghost output), assume invariant at i
+        i = fresh('i')
+        body_st = st.clone()
+        body_st.ghost['yielded'] = fresh('yielded_at_i', z3.SeqSort(z3.IntSort()))
+        body_st.pc += [i >= 0, i < L, inv(self, body_st, env, i, it, pre)]
+        elem = it.z[L - 1 - i] if it.rev else it.z[i]
+        self.assign_target(n.target, VObj(it.cls, z3.simplify(elem)), env, body_st, ctx)
+        for s2, c2 in self.block(n.body, env, body_st, ctx):
+            if not isinstance(c2, (Next, Cont)):
+                raise ToolLimit('abrupt exit from invariant loop')
+            for f in self.unfold(self, s2, i, it):
+                s2.facts.append(f)
+            self.oblige(s2, 'inv-preserve%s' % (key,), inv(self, s2, env, i + 1, it, pre), n.lineno)
+        # (3) after the loop: assume invariant at L
+        after = st.clone()
+        after.ghost['yielded'] = fresh('yielded_after', z3.SeqSort(z3.IntSort()))
+        after.pc += [inv(self, after, env, L, it, pre)]
+        return [(after, Next())]
+
+    def loop_ordinal(self, ctx, n):
+        return n.lineno
